@@ -58,12 +58,14 @@ SeedsA == { Seed("en-Latn-US-valencia-1996"),
             Seed("en-u-foo-bar-ca-buddhist-hc-h12"),
             Seed("en-t-de-AT-1996-bavarian-h0-hybrid-k0-dvorak"),
             Seed("und-u-ca-islamic-civil-t-en-h0-hybrid-x-b-a"),
-            Seed("en-US-valencia-t-k0-dvorak-u-ca-buddhist-x-foo") }
+            Seed("en-US-valencia-t-k0-dvorak-u-ca-buddhist-x-foo"),
+            Seed("de-u-kn-true-co-phonebk-t-k0-true-h0-hybrid"),
+            Seed("sl-1abc-rozaj-t-sl-1abc-rozaj-m0-true") }
 SeedsB == { Seed("en-u-ca-buddhist-ca-gregory"),          \* duplicate key (free zone)
             Seed("en-US-u-attr-u-ca-true"),               \* repeated singleton
             Seed("en-Latn-Latn"), Seed("en-t-en-US-de"), Seed("en-a-foo-u-ca"),
             Seed("en--US"), Seed("en-u-"), Seed("e-US"), Seed("en-valencia-abcd"),
-            Seed("en-t-h0-u-ca"), Seed("en-x-u-ca-t-en") }
+            Seed("en-t-h0-u-ca"), Seed("en-x-u-ca-t-en"), Seed("en-x-a--") }
 SeedsC == { Seed("sr-Cyrl-RS-1abc-valencia-u-abc-def-nu-latn-co-phonebk-t-und-Latn-m0-names-s0-ascii") }
 Seeds == IF SeedSet = "A" THEN SeedsA ELSE IF SeedSet = "B" THEN SeedsB
          ELSE IF SeedSet = "C" THEN SeedsC ELSE SeedsA \cup SeedsB
